@@ -224,7 +224,7 @@ def op_witness(prop, op, variant):
         run = getattr(ctx, "_run", None)
         if run is None:
             return None
-        if any(e[0] == "timeout" for e in ctx.ghost.events):
+        if any(e[0] in ("timeout", "open_connection") for e in ctx.ghost.events):
             return None          # an environment choice the native fake reader does not replay (a reply later than a timeout)
         now = run["now"]
         inputs = {k: concretise(v, model) for k, v in ctx.inputs.items()}
